@@ -160,11 +160,16 @@ def measure_rge2_cell(cell, seed):
     # the same point for the six entries of one (v, nf, j)
     rng = E.cell_rng(seed, {"v": cell["v"], "nf": cell["nf"], "j": cell["j"]}, "C29rge2")
     v, nf = cell["v"], cell["nf"]
+    # "us-msbar": the unpolarised matrices in the variant for MSbar heavy-quark masses (L in terms of m(m): the
+    # same law; the variant differs from the pole-mass one by L-independent second-order terms)
+    sec = "S"
+    if v == "us-msbar":
+        v, sec = "us", "Smsbar"
     n = complex(rng.uniform(1.5, 25.0), rng.uniform(-30.0, 30.0)) if cell["j"] % 2 else complex(rng.uniform(1.5, 6.0), rng.uniform(-5.0, 5.0))
     L = rng.uniform(-2.5, 2.5)
 
     def tower(LL):
-        t = R.ome_tower(v, "S", 2, nf, LL, n)
+        t = R.ome_tower(v, sec, 2, nf, LL, n)
         return np.asarray(t[0], dtype=np.complex128), np.asarray(t[1], dtype=np.complex128)
 
     h = 0.5
